@@ -156,6 +156,8 @@ def _sf2(args):
     except Exception as e:
         import traceback
         logging.warn(e)
+        # release the other stripes that are (or will be) waiting for this one
+        barrier.abort()
         raise Exception("".join(traceback.format_exception(*sys.exc_info())))
 
 
